@@ -1,5 +1,6 @@
 import Ymq.Drv.Util
 import Ymq.Model.Relations
+import Ymq.Model.Pseudoprime
 
 /-!
 Driver ops for the relation store model (property C11).
@@ -16,6 +17,9 @@ history         items joined by `;`, item = `<rel>|<pq>` or `<tid>|<rel>|<pq>`, 
   try_factor n a b                       -> none | p,q | panic
   final_combine n x,x,.. F               -> a,b | panic
   kernel_step n slots rel;rel;.. i,i,..  -> a,b,none | a,b,p,q | panic     (model only)
+  final_replay n p,p,.. rel;rel;.. i,i;i,i,i;..  -> d,d,.. | - | panic
+      (model of `final_step` around the kernel solver: factor base primes in index order, relations,
+       kernel vectors as index lists into the filtered relations; `crate::pseudoprime` = C06 model)
   rs_history n fbsize maxlarge history   -> rec;rec;...;rec | cycles=<count> partial=.. doubles=.. rev=.. stats=..
                                             or `panic@<i>` (the i-th add, 0-based, does not return)
       rec = <tag>{=<rel of a newly published cycle>}*
@@ -151,6 +155,12 @@ def handleRelations : Handler
     some (showM (fun r => match r.2.2 with
       | none => s!"{r.1},{r.2.1},none"
       | some (p, q) => s!"{r.1},{r.2.1},{p},{q}") (kernelStep n slots rels eq))
+  | ["final_replay", n, fb, rels, kernel] => do
+    let n ← parseNat n; let fb ← parseNatList fb
+    let rels ← if rels = "-" then some [] else (rels.splitOn ";").mapM parseRel
+    let kernel ← if kernel = "-" then some [] else (kernel.splitOn ";").mapM parseNatList
+    let isPrime := fun p => (Ymq.Pseudoprime.pseudoprime p).getD false
+    some (showM (fun r => showList r.2.2) (finalStep n fb rels kernel isPrime))
   | ["rs_history", n, fbsize, maxlarge, h] => do
     let n ← parseNat n; let fbsize ← parseNat fbsize; let maxlarge ← parseNat maxlarge
     let h ← parseHistory h
